@@ -2,12 +2,34 @@
 Facts about jsonrpclib/threadpool.py ThreadPool (C09, C10, C11): lock discipline of the shared counters and the
 thread list, growth / spawn / retirement rules as (operator, left, right), the structure of join(), the stores to the
 pending-task counter, the sentinel test of clear(), constructor defaults.
+
+Every method is read through tools/extractors/normalise.py: helpers of the class that the model has no step for are
+inlined where they are called, `acquire(); try: ... finally: release()` is a `with`, aliases of the lock / the queue are
+resolved, and the rules are computed from the conditions that DOMINATE a statement (enclosing ifs, guard clauses,
+short-circuit operands) rather than from the shape of one `if`.  The facts mean what they meant before.
 """
 import ast
+import importlib.util
+import os
 
 from __main__ import Fact, lean_str
 
+
+def _load_normaliser():
+    path = os.path.join(os.path.dirname(os.path.abspath(__file__)), "normalise.py")
+    spec = importlib.util.spec_from_file_location("extractors_normalise_shared", path)
+    mod = importlib.util.module_from_spec(spec)
+    spec.loader.exec_module(mod)
+    return mod
+
+
+N = _load_normaliser()
+
 PROPERTIES = ["C09", "C10", "C11"]
+
+# the methods the pool model has steps for: never inlined, every other method of the class that one of them calls is
+ANCHORS = ("__init__", "start", "__start_thread", "stop", "enqueue", "clear", "join", "__run")
+EVENT_ANCHORS = ("__init__", "data", "exception", "clear", "is_set", "set", "raise_exception", "wait")
 
 SHARED = ("__nb_threads", "__nb_active_threads", "__nb_pending_task", "_threads")
 ALL3 = ["C09", "C10", "C11"]
@@ -36,18 +58,18 @@ def _accesses(fn):
                 visit(b, True)
             return
         if isinstance(node, ast.AugAssign) and _self_attr(node.target) in SHARED:
-            out.append((_self_attr(node.target), "aug", node.lineno, locked))
+            out.append((_self_attr(node.target), "aug", N.src_line(node), locked))
             visit(node.value, locked)
             return
         if isinstance(node, ast.Attribute) and _self_attr(node) in SHARED:
             kind = {"Load": "load", "Store": "store", "Del": "del"}[type(node.ctx).__name__]
-            out.append((node.attr, kind, node.lineno, locked))
+            out.append((node.attr, kind, N.src_line(node), locked))
             return
         if isinstance(node, ast.Delete):
             for t in node.targets:
                 # `del self._threads[:]` : the attribute itself is loaded, the effect is a deletion
                 if isinstance(t, ast.Subscript) and _self_attr(t.value) in SHARED:
-                    out.append((_self_attr(t.value), "del", node.lineno, locked))
+                    out.append((_self_attr(t.value), "del", N.src_line(node), locked))
                 else:
                     visit(t, locked)
             return
@@ -119,7 +141,11 @@ def _cmp(node, fn=None):
     if isinstance(node, ast.Compare) and len(node.ops) == 1:
         a, b = _operand(node.left, fn), _operand(node.comparators[0], fn)
         if a and b:
-            return (type(node.ops[0]).__name__, a.lstrip("_"), b.lstrip("_"))
+            op = type(node.ops[0]).__name__
+            if op in ("Lt", "LtE"):
+                # one spelling per comparison: `a < b` is `b > a`
+                op, a, b = {"Lt": "Gt", "LtE": "GtE"}[op], b, a
+            return (op, a.lstrip("_"), b.lstrip("_"))
     return None
 
 
@@ -144,11 +170,8 @@ def _triple(t):
 def facts(src):
     out = []
     cls = src.klass("threadpool", "ThreadPool")
-    methods = {}
-    if cls is not None:
-        for n in cls.body:
-            if isinstance(n, ast.FunctionDef):
-                methods[n.name] = n
+    # normalised methods; a helper that is inlined at every call site is analysed there, not as a method of its own
+    methods = N.normalised_methods(cls, ANCHORS, module=src.module("threadpool"))
 
     # ---- lock discipline table -------------------------------------------------------------
     table = []
@@ -184,36 +207,68 @@ def facts(src):
         json_value=stores))
 
     # ---- growth rule (enqueue) and spawn guard (__start_thread) -----------------------------------
+    # enqueue: the conditions under which control reaches `self.__start_thread()`, argument validation aside
     growth = None
     fn = methods.get("enqueue")
     if fn is not None:
-        n = _first_if(fn, lambda i: _cmp(i.test, fn) is not None and _calls(i, "__start_thread"))
-        if n is not None:
-            growth = _cmp(n.test, fn)
+        rules = set()
+        for it in N.walk(fn):
+            if it.kind in ("stmt", "test") and N.calls_in(it.node, attr="__start_thread"):
+                lits = [N.positive(c) for c in it.conds if not c.is_validation]
+                rules.add(_cmp(lits[0][0], fn) if len(lits) == 1 and lits[0][1] else None)
+        if len(rules) == 1:
+            growth = rules.pop()
     out.append(Fact("poolGrowthRule", "String × String × String", None if growth is None else _triple(growth),
                     ["C10", "C09"], "enqueue: a worker is started when <left> <op> <right>", json_value=growth))
+    # __start_thread: `thread.start()` is reached exactly when a comparison of counters is false and the stop flag is not
+    # set; everything that is not behind both tests is `return False`; every test and every counter access is made under
+    # the lock
     spawn = None
     fn = methods.get("__start_thread")
     if fn is not None:
-        n = _first_if(fn, lambda i: _cmp(i.test, fn) is not None and any(isinstance(b, ast.Return) for b in i.body))
-        flag = _first_if(fn, lambda i: _calls(i.test, "is_set") and any(isinstance(b, ast.Return) for b in i.body))
-        if n is not None and flag is not None and _accesses(fn) and all(a[3] for a in _accesses(fn)):
-            spawn = _cmp(n.test, fn)
+        items = N.walk(fn)
+        sites = [it for it in items if it.kind == "stmt" and N.calls_in(it.node, attr="start")]
+        if len(sites) == 1:
+            refusal, flag = [], []
+            for c in sites[0].conds:
+                expr, pol = c
+                if isinstance(expr, ast.Compare):
+                    r = N.positive(N.Lit(expr, not pol))        # when does it refuse: the complement
+                    refusal.append(_cmp(r[0], fn) if r[1] else None)
+                elif isinstance(expr, ast.Call) and isinstance(expr.func, ast.Attribute) and expr.func.attr == "is_set" \
+                        and not pol:
+                    flag.append(c)
+                else:
+                    refusal.append(None)
+            need = set(N.lit_key(c) for c in sites[0].conds)
+            elsewhere = [it for it in items if it.kind == "stmt" and not need <= set(it.keys())]
+            refuses = bool(elsewhere) and all(
+                isinstance(it.node, ast.Pass) or (isinstance(it.node, ast.Return) and isinstance(it.node.value, ast.Constant)
+                                                  and it.node.value.value is False) for it in elsewhere)
+            tests_locked = all(it.locked for it in items if it.kind == "test")
+            if len(refusal) == 1 and refusal[0] is not None and len(flag) == 1 and refuses and tests_locked \
+                    and _accesses(fn) and all(a[3] for a in _accesses(fn)):
+                spawn = refusal[0]
     out.append(Fact("poolSpawnRefusal", "String × String × String", None if spawn is None else _triple(spawn),
                     ["C10", "C11"], "__start_thread (entirely under the lock): refuses when <left> <op> <right>, and when the stop flag is set",
                     json_value=spawn))
 
     # ---- retirement rule (__run) ------------------------------------------------------------------
+    # the conditions that dominate the `nb_threads -= 1` of a retiring worker: all of them comparisons of counters
     retire = None
     fn = methods.get("__run")
     if fn is not None:
-        for n in ast.walk(fn):
-            if isinstance(n, ast.If) and isinstance(n.test, ast.BoolOp) and isinstance(n.test.op, ast.And):
-                parts = [_cmp(v, fn) for v in n.test.values]
-                dec = any(isinstance(m, ast.AugAssign) and _self_attr(m.target) == "__nb_threads" and isinstance(m.op, ast.Sub)
-                          for b in n.body for m in ast.walk(b))
-                if all(parts) and dec:
-                    retire = parts
+        found = []
+        for it in N.walk(fn):
+            m = it.node
+            if it.kind == "stmt" and isinstance(m, ast.AugAssign) and _self_attr(m.target) == "__nb_threads" \
+                    and isinstance(m.op, ast.Sub) and it.conds:
+                lits = [N.positive(c) for c in it.conds]
+                parts = [_cmp(e, fn) if pol else None for e, pol in lits]
+                if all(parts):
+                    found.append(parts)
+        if len(found) == 1:
+            retire = found[0]
     out.append(Fact("poolRetireRule", "List (String × String × String)",
                     None if retire is None else "[" + ", ".join(_triple(t) for t in retire) + "]",
                     ["C10", "C09"], "worker loop: an idle worker retires when all of these comparisons hold", json_value=retire))
@@ -222,28 +277,32 @@ def facts(src):
     join = None
     fn = methods.get("join")
     if fn is not None:
+        params = [a.arg for a in fn.args.args[1:]]
+        items = N.walk(fn, ())
         no_shortcut = not _calls(fn, "empty") and not _calls(fn, "qsize")
-        top = [s for s in fn.body if isinstance(s, ast.If)]
-        guarded = False
-        ret_not_unfinished = False
-        untimed = False
-        if top:
-            t = top[0]
-            is_none = isinstance(t.test, ast.Compare) and isinstance(t.test.ops[0], ast.Is)
-            if is_none:
-                untimed = _calls(ast.Module(body=t.body, type_ignores=[]), "join") and any(
-                    isinstance(b, ast.Return) and isinstance(b.value, ast.Constant) and b.value.value is True for b in t.body)
-                for w in ast.walk(ast.Module(body=t.orelse, type_ignores=[])):
-                    if isinstance(w, ast.If) and isinstance(w.test, ast.Attribute) and w.test.attr == "unfinished_tasks" \
-                            and _calls(ast.Module(body=w.body, type_ignores=[]), "wait"):
-                        guarded = True
-                    if isinstance(w, ast.Return) and isinstance(w.value, ast.UnaryOp) and isinstance(w.value.op, ast.Not) \
-                            and any(isinstance(m, ast.Attribute) and m.attr == "unfinished_tasks" for m in ast.walk(w.value)):
-                        ret_not_unfinished = True
-                waits = [w for w in ast.walk(ast.Module(body=t.orelse, type_ignores=[]))
-                         if isinstance(w, ast.Call) and isinstance(w.func, ast.Attribute) and w.func.attr == "wait"]
-                if len(waits) != 1:
-                    guarded = False
+        untimed = guarded = ret_not_unfinished = False
+        if params:
+            k_none, k_some = "%s is None" % params[0], "%s is not None" % params[0]
+            stmts = [it for it in items if it.kind == "stmt"]
+            # join() : Queue.join(), then `return True`, both exactly when the timeout is None
+            qjoins = [it for it in stmts if N.calls_in(it.node, attr="join")]
+            trues = [it for it in stmts if isinstance(it.node, ast.Return) and isinstance(it.node.value, ast.Constant)
+                     and it.node.value.value is True]
+            untimed = bool(qjoins) and all(it.keys() == [k_none] for it in qjoins) and any(
+                t.keys() == [k_none] and t.seq > qjoins[0].seq for t in trues)
+            # join(t) : one timed wait, made exactly when the timeout is given and `unfinished_tasks` is non-zero
+            waits = [it for it in items if N.calls_in(it.node, attr="wait")]
+            if len(waits) == 1 and len(N.calls_in(fn, attr="wait")) == 1:
+                lits = [N.positive(c) for c in waits[0].conds]
+                rest = [(e, pol) for e, pol in lits if N.lit_key((e, pol)) != k_some]
+                guarded = (len(rest) == 1 and len(lits) == 2 and rest[0][1] and isinstance(rest[0][0], ast.Attribute)
+                           and rest[0][0].attr == "unfinished_tasks")
+            # ... and answers `not unfinished_tasks`
+            timed_returns = [it for it in stmts if isinstance(it.node, ast.Return) and k_some in it.keys()]
+            ret_not_unfinished = bool(timed_returns) and all(
+                it.keys() == [k_some] and isinstance(it.node.value, ast.UnaryOp) and isinstance(it.node.value.op, ast.Not)
+                and any(isinstance(m, ast.Attribute) and m.attr == "unfinished_tasks" for m in ast.walk(it.node.value))
+                for it in timed_returns)
         join = (no_shortcut, untimed, guarded, ret_not_unfinished)
     out.append(Fact("poolJoinShape", "Bool × Bool × Bool × Bool",
                     None if join is None else "(%s)" % ", ".join(str(b).lower() for b in join),
@@ -251,17 +310,25 @@ def facts(src):
                              "`if unfinished_tasks`, join(t) returns `not unfinished_tasks`)", json_value=join))
 
     # ---- clear(): sentinel test before the decrement ------------------------------------------------------
+    # every decrement of the pending counter in clear() is dominated by `<entry> is not self._done_event`
     clr = None
     fn = methods.get("clear")
     if fn is not None:
-        for n in ast.walk(fn):
-            if isinstance(n, ast.If) and isinstance(n.test, ast.Compare) and isinstance(n.test.ops[0], ast.IsNot) \
-                    and _self_attr(n.test.comparators[0]) == "_done_event":
-                clr = any(isinstance(m, ast.AugAssign) and _self_attr(m.target) == "__nb_pending_task" for m in ast.walk(n))
-        if clr is None:
-            clr = False
+        decs = [it for it in N.walk(fn) if it.kind == "stmt" and isinstance(it.node, ast.AugAssign)
+                and _self_attr(it.node.target) == "__nb_pending_task"]
+
+        def not_sentinel(c):
+            e, pol = N.positive(c)
+            return (pol and isinstance(e, ast.Compare) and len(e.ops) == 1 and isinstance(e.ops[0], ast.IsNot)
+                    and (_self_attr(e.comparators[0]) == "_done_event" or _self_attr(e.left) == "_done_event"))
+        clr = bool(decs) and all(isinstance(it.node.op, ast.Sub) and any(not_sentinel(c) for c in it.conds) for it in decs)
+        # ... while `task_done()` is owed for every entry taken from the queue, sentinel or not: no condition on it
+        dones = [it for it in N.walk(fn) if N.calls_in(it.node, attr="task_done")]
+        clr = clr and bool(dones) and all(not it.conds for it in dones)
     out.append(Fact("poolClearDecrementsTasksOnly", "Bool", None if clr is None else str(bool(clr)).lower(),
-                    ["C10", "C11"], "clear(): the pending counter is decremented for dropped tasks, not for sentinels", json_value=clr))
+                    ["C10", "C11"], "clear(): the pending counter is decremented for dropped tasks, not for sentinels "
+                                    "(every decrement is dominated by `entry is not self._done_event`; task_done() is unconditional)",
+                    json_value=clr))
 
     # ---- constructor defaults --------------------------------------------------------------------------------
     dflt = None
@@ -280,21 +347,19 @@ def facts(src):
                     ["C10"], "ThreadPool.__init__ defaults (min_threads, queue_size, timeout)", json_value=dflt))
 
     # ---- constructor: which errors of int() are caught ----------------------------------------------------------------
+    # per `int(...)` conversion, in program order: the classes caught by the try statements whose body it sits in
     catches = None
     if fn is not None:
         catches = []
-        for n in ast.walk(fn):
-            if isinstance(n, ast.Try) and any(isinstance(c, ast.Call) and isinstance(c.func, ast.Name) and c.func.id == "int"
-                                              for b in n.body for c in ast.walk(b)):
+        for it in N.walk(fn, ()):
+            for _c in N.calls_in(it.node, name="int"):
                 names = set()
-                for h in n.handlers:
-                    ts = h.type.elts if isinstance(h.type, ast.Tuple) else ([h.type] if h.type is not None else [])
-                    for t in ts:
-                        names.add(t.id if isinstance(t, ast.Name) else ast.dump(t))
-                    if h.type is None:
-                        names.add("BaseException")
-                catches.append((n.lineno, sorted(names)))
-        catches = [c for _l, c in sorted(catches)] or None
+                for t, part, _h in it.tries:
+                    if part == "body":
+                        for h in t.handlers:
+                            names |= N.handler_classes(h)
+                catches.append(sorted(names))
+        catches = catches or None
     out.append(Fact("poolCtorCatches", "List (List String)",
                     None if catches is None else "[" + ", ".join("[" + ", ".join(lean_str(x) for x in c) + "]" for c in catches) + "]",
                     ["C10"], "ThreadPool.__init__: exception classes caught around each int(...) conversion (max_threads, "
@@ -320,16 +385,19 @@ def facts(src):
                         and isinstance(m.value, ast.Constant) and m.value.value == 1)
             incs = [m.lineno for m in ast.walk(fn) if _delta(m, ast.Add)]
             inc = len(incs) == 1 and incs[0] < start_line
-            undone = False
-            for h in n.handlers:
-                ts = h.type.elts if isinstance(h.type, ast.Tuple) else ([h.type] if h.type is not None else [])
-                caught = {t.id for t in ts if isinstance(t, ast.Name)}
+            undone = True
+            for klass in ("RuntimeError", "OSError"):
+                # the first clause that names the class is the one that handles it
+                h = next((h for h in n.handlers if klass in N.handler_classes(h)), None)
+                if h is None:
+                    undone = False
+                    continue
                 decs = [m for b in h.body for m in ast.walk(b) if _delta(m, ast.Sub)]
                 ret_false = any(isinstance(b, ast.Return) and isinstance(b.value, ast.Constant) and b.value.value is False
                                 for b in h.body)
-                if {"RuntimeError", "OSError"} <= caught and len(decs) == 1 and ret_false:
-                    undone = True
-            apps = [c.lineno for b in n.body for c in ast.walk(b)
+                undone = undone and len(decs) == 1 and ret_false
+            # (the else clause of the try continues its body when start() did not raise)
+            apps = [c.lineno for b in list(n.body) + list(n.orelse) for c in ast.walk(b)
                     if isinstance(c, ast.Call) and isinstance(c.func, ast.Attribute) and c.func.attr == "append"
                     and _self_attr(c.func.value) == "_threads"]
             all_apps = [c for c in ast.walk(fn) if isinstance(c, ast.Call) and isinstance(c.func, ast.Attribute)
@@ -370,8 +438,10 @@ def facts(src):
     # `queue.task_done`.  That is exact only when nothing a client can read from the future (data, exception) is written
     # after the flag has been raised: both fields first, the flag - `self.__event.set()` - as the last statement.
     pub = []
+    ecls = src.klass("threadpool", "EventData")
+    emethods = N.normalised_methods(ecls, EVENT_ANCHORS, module=src.module("threadpool"))
     for name in ("set", "raise_exception"):
-        fn = src.func("threadpool", "EventData." + name)
+        fn = emethods.get(name)
         row = _publish_order(fn) if fn is not None else None
         if row is None:
             pub = None
